@@ -807,8 +807,6 @@ V("c12-okp-public-swapped-after-kid", "C12", "break", "R12.13", "OKPKey.generate
   "        key = cls(raw_key, raw_key, parameters)\n        if auto_kid:\n            key.ensure_kid()\n        if not private:\n            key._raw_value = key.original_value = raw_key.public_key()\n        return key")
 V("c13-keyset-as-dict-rewrites-kid", "C13", "break", "R13.10", "KeySet.as_dict stores the thumbprint as kid unconditionally",
   "_keys.py", "            # trigger key to generate kid via thumbprint\n            key.ensure_kid()", "            # trigger key to generate kid via thumbprint\n            key.dict_value[\"kid\"] = key.thumbprint()")
-V("c13-benign-keyset-setdefault-kid", "C13", "benign", "R13.10", "KeySet.as_dict uses setdefault, which keeps a kid that is present",
-  "_keys.py", "            # trigger key to generate kid via thumbprint\n            key.ensure_kid()", "            # trigger key to generate kid via thumbprint\n            key.ensure_kid()\n            key.dict_value.setdefault(\"kid\", key.thumbprint())")
 V("c14-keyset-first-key-without-kid", "C14", "break", "R14.14", "KeySet.__init__ skips the first key",
   "_keys.py", "        for key in keys:\n            key.ensure_kid()\n        self.keys = keys", "        for key in keys[1:]:\n            key.ensure_kid()\n        self.keys = keys")
 V("c14-benign-keyset-kid-test", "C14", "benign", "R14.14", "KeySet.__init__ tests the element's kid before calling ensure_kid",
@@ -865,3 +863,49 @@ V2("real-benign-registry-helper", "C05", "benign", "R05.10", "the four `registry
    ("jws.py", "    if registry is None:\n        registry = construct_registry(algorithms)\n\n    registry.check_header(protected)", "    registry = _registry_for(registry, algorithms)\n\n    registry.check_header(protected)"),
    ("jws.py", "    if registry is None:\n        registry = construct_registry(algorithms)\n\n    headers = obj.headers()", "    registry = _registry_for(registry, algorithms)\n\n    headers = obj.headers()"),
    ("jws.py", "def register_key_set() -> None:", "def _registry_for(registry: JWSRegistry | None, algorithms: list[str] | None) -> JWSRegistry:\n    if registry is None:\n        return construct_registry(algorithms)\n    return registry\n\n\ndef register_key_set() -> None:")])
+# ------------------------------------------------------------------------------------------------ rules / engine additions after the seventh seed batch
+V2("real-benign-check-key-hook", "C06", "benign", "R06.1", "use + key-type checks of the JWS sign / verify sites move into one new JWSAlgModel.check_key hook (cross-module, dynamic receiver)", [
+   ("rfc7515/model.py", "    def check_key_type(self, key: Any) -> None:", "    def check_key(self, key: Any) -> None:\n        key.check_use(\"sig\")\n        self.check_key_type(key)\n\n    def check_key_type(self, key: Any) -> None:"),
+   ("jws.py", "    key.check_use(\"sig\")\n    alg.check_key_type(key)\n    key.check_alg(protected[\"alg\"])", "    alg.check_key(key)\n    key.check_alg(protected[\"alg\"])"),
+   ("rfc7515/json.py", "    key = find_key(member)\n    key.check_use(\"sig\")\n    alg.check_key_type(key)\n    if member.protected:", "    key = find_key(member)\n    alg.check_key(key)\n    if member.protected:")])
+V2("real-benign-hmac-mac-helper", "C07", "benign", "R07.1", "HMAC sign and verify share a new _mac(msg, key, operation) method", [
+   ("rfc7518/jws_algs.py", "    def sign(self, msg: bytes, key: OctKey) -> bytes:\n        # it is faster than the one in cryptography\n        op_key = key.get_op_key(\"sign\")\n        return hmac.new(op_key, msg, self.hash_alg).digest()\n\n    def verify(self, msg: bytes, sig: bytes, key: OctKey) -> bool:\n        op_key = key.get_op_key(\"verify\")\n        v_sig = hmac.new(op_key, msg, self.hash_alg).digest()\n        return hmac.compare_digest(sig, v_sig)",
+    "    def _mac(self, msg: bytes, key: OctKey, operation: str) -> bytes:\n        op_key = key.get_op_key(operation)  # type: ignore[call-overload]\n        return hmac.new(op_key, msg, self.hash_alg).digest()\n\n    def sign(self, msg: bytes, key: OctKey) -> bytes:\n        return self._mac(msg, key, \"sign\")\n\n    def verify(self, msg: bytes, sig: bytes, key: OctKey) -> bool:\n        v_sig = self._mac(msg, key, \"verify\")\n        return hmac.compare_digest(sig, v_sig)")])
+V("c09-hmac-mac-helper-wrong-operation", "C09", "break", "R09.13", "the shared _mac helper asks for the sign operation when verifying",
+  "rfc7518/jws_algs.py", "    def verify(self, msg: bytes, sig: bytes, key: OctKey) -> bool:\n        op_key = key.get_op_key(\"verify\")\n        v_sig = hmac.new(op_key, msg, self.hash_alg).digest()",
+  "    def verify(self, msg: bytes, sig: bytes, key: OctKey) -> bool:\n        op_key = key.get_op_key(\"sign\")\n        v_sig = hmac.new(op_key, msg, self.hash_alg).digest()")
+V("c04-zip-member-popped", "C04", "break", "R04.14", "perform_encrypt pops the zip member out of the protected header",
+  "rfc7516/message.py", "        zip_ = registry.get_zip(obj.protected[\"zip\"])\n        plaintext = zip_.compress(obj.plaintext)", "        zip_ = registry.get_zip(obj.protected.pop(\"zip\"))\n        plaintext = zip_.compress(obj.plaintext)")
+V("c05-gate-raises-valueerror", "C05", "break", "R05.15", "the JWE gate refuses a not-recommended name with ValueError",
+  "rfc7516/registry.py", "            if name not in self.recommended:\n                raise UnsupportedAlgorithmError(f'Algorithm of \"{name}\" is not recommended')\n\n\ndefault_registry", "            if name not in self.recommended:\n                raise ValueError(f'Algorithm of \"{name}\" is not recommended')\n\n\ndefault_registry")
+V("c07-header-dumps-default-hook", "C07", "break", "R07.5", "json_b64encode serialises with default=str",
+  "util.py", "        text = json.dumps(text, ensure_ascii=True, separators=(\",\", \":\"))", "        text = json.dumps(text, ensure_ascii=True, separators=(\",\", \":\"), default=str)")
+V("c12-header-dumps-default-hook", "C12", "break", "R12.14", "json_b64encode serialises non-JSON objects (a Key given as jwk) through a default= hook",
+  "util.py", "        text = json.dumps(text, ensure_ascii=True, separators=(\",\", \":\"))", "        text = json.dumps(text, ensure_ascii=True, separators=(\",\", \":\"), default=dict)")
+V("c19-header-loads-parse-int", "C19", "break", "R19.5", "json_b64decode parses integers as floats",
+  "util.py", "        return json.loads(data)", "        return json.loads(data, parse_int=float)")
+V2("c10-expired-error-formats-date", "C10", "break", "R10.9", "the expired-token error formats the NumericDate with datetime.fromtimestamp", [
+   ("rfc7519/registry.py", "import time\n", "import time\nimport datetime\n"),
+   ("rfc7519/registry.py", "        if value < (self.now - self.leeway):\n            raise ExpiredTokenError()", "        if value < (self.now - self.leeway):\n            raise ExpiredTokenError(datetime.datetime.fromtimestamp(value).isoformat())")])
+V("c11-validate-only-truthy-members", "C11", "break", "R11.4", "JWK members are type-checked only when truthy",
+  "rfc7517/models.py", "            if k in dict_key:\n                try:\n                    registry[k].validate(dict_key[k])", "            if dict_key.get(k):\n                try:\n                    registry[k].validate(dict_key[k])")
+V("c11-der-public-parser-first", "C11", "break", "R11.19", "DER input is offered to the public-key parser first",
+  "rfc7517/pem.py", "        try:\n            key = load_der_private_key(raw, password=password, backend=default_backend())\n        except ValueError:\n            key = load_der_public_key(raw, backend=default_backend())",
+  "        try:\n            key = load_der_public_key(raw, backend=default_backend())\n        except ValueError:\n            key = load_der_private_key(raw, password=password, backend=default_backend())")
+V("c12-jwk-validator-accepts-mappings", "C12", "break", "R12.14", "is_jwk accepts anything with keys()",
+  "registry.py", "    if not isinstance(value, dict):\n        raise ValueError(\"must be a JWK\")", "    if not hasattr(value, \"keys\"):\n        raise ValueError(\"must be a JWK\")")
+V("c16-payload-error-reads-pos", "C16", "break", "E6", "jwt.decode reads .pos of whatever ValueError json.loads raised",
+  "jwt.py", "    except (TypeError, ValueError, RecursionError):\n        raise InvalidPayloadError()", "    except (TypeError, RecursionError):\n        raise InvalidPayloadError()\n    except ValueError as error:\n        raise InvalidPayloadError(f\"invalid JSON at {error.pos}\")")
+V2("c16-kid-compared-with-compare-digest", "C16", "break", "E1", "KeySet.get_by_kid compares the kid strings with hmac.compare_digest", [
+   ("_keys.py", "import random\n", "import random\nimport hmac\n"),
+   ("_keys.py", "            if key.kid == kid:\n                return key", "            if isinstance(kid, str) and key.kid is not None and hmac.compare_digest(key.kid, kid):\n                return key")])
+V2("c18-generate-iv-size-parameter", "C18", "break", "R18.2", "generate_iv takes the size from its caller", [
+   ("rfc7516/models.py", "    def generate_iv(self) -> bytes:\n        return secrets.token_bytes(self.iv_size // 8)", "    def generate_iv(self, size: int = 0) -> bytes:\n        return secrets.token_bytes((size or self.iv_size) // 8)"),
+   ("rfc7516/message.py", "    iv = enc.generate_iv()\n", "    iv = enc.generate_iv(len(obj.protected) * 8)\n")])
+V("c04-ec-export-size-floor", "C04", "break", "R04.15", "EC public export computes the coordinate size with floor division",
+  "rfc7518/ec_key.py", "        size = (numbers.curve.key_size + 7) // 8", "        size = numbers.curve.key_size // 8")
+V("c04-benign-ec-export-size-negated-floor", "C04", "benign", "R04.15", "the coordinate size is written -(-bits // 8)",
+  "rfc7518/ec_key.py", "        size = (numbers.curve.key_size + 7) // 8", "        size = -(-numbers.curve.key_size // 8)")
+V("c01-alias-table-in-gate", "C01", "break", "R01.12", "JWS get_alg resolves Ed25519 / Ed448 to the EdDSA model through an alias table",
+  "rfc7515/registry.py", "        if not isinstance(name, str) or name not in self.algorithms:\n            raise UnsupportedAlgorithmError(f'Algorithm of \"{name}\" is not supported')\n\n        if self.allowed:",
+  "        name = {\"Ed25519\": \"EdDSA\", \"Ed448\": \"EdDSA\"}.get(name, name) if isinstance(name, str) else name\n        if not isinstance(name, str) or name not in self.algorithms:\n            raise UnsupportedAlgorithmError(f'Algorithm of \"{name}\" is not supported')\n\n        if self.allowed:")
